@@ -17,14 +17,25 @@ Three layers (DESIGN §7 C13).  `Computes t n` (Proofs/Layer2.lean) packages, fo
   nor/hno: reduce NOR / HNO with limit 0 return exactly n for some fuel, i.e. they TERMINATE (via C07)
   any    : whenever reduce under NOR, HNO, APP or HAP with limit 0 returns at all, it returns n
            (via C01, C03, C06) — so for the eager orders the RESULT is proved right for all arguments.
-Layer 3 (bounded, labelled as such): termination of HAP (all operations) and APP (operations
-defined without Z) on a finite grid, by evaluating the verified model reducer in the kernel.
+Layer 3 — **now unbounded too**: for ALL arguments, `reduce HAP 0` RETURNS the expected encoding for all 23
+operations (`C13_<op>_hap`) and `reduce APP 0` does so for the 19 operations defined without a fixed-point
+combinator (`C13_<op>_app`).  Proof: big-step semantics `EvalHap`/`EvalApp` mirroring the eager traversals
+(`Proofs/Eager/BigStep.lean`, adequate for the model reducer), one derivation per operation following the
+eager evaluation order (closures in operator position, normalisation under binders), by induction on the
+numerals; `fac` under APP through a general theorem: APP terminates on every simply typed term.  The four
+Z-based operations are shown to DIVERGE under APP for all arguments (`C13_z_based_diverge_under_app`), which
+is why the documentation excludes them.  A small kernel-evaluated grid is kept as a cross-check of the
+statements (`C13_grid_*`, labelled bounded); it no longer carries any claim.
 The operations are the GENERATED constants `Gen.Church.*`, re-extracted from the Rust source on
 every run, mentioned by name only.
 -/
 import LC.Proofs.Layer2
 import LC.Proofs.Grid
 import LC.Proofs.Num.ChurchB
+import LC.Proofs.Eager.ChurchHapA
+import LC.Proofs.Eager.ChurchHapB
+import LC.Proofs.Eager.ChurchAppA
+import LC.Proofs.Eager.ChurchAppB
 import LC.Props.C12
 
 namespace LC
@@ -72,19 +83,52 @@ out.append('''/-- non-vacuity: the premises are met by concrete numerals, e.g. 7
 example : ∃ fuel c, reduce .NOR 0 fuel (app2 Gen.Church.div (intoChurch 7) (intoChurch 2))
     = some (tuple2 (intoChurch 3) (intoChurch 1), c) := (C13_div 7 2 (by decide)).nor
 
-/-! ### layer 3 (BOUNDED): the eager orders terminate on the grid.
+/-! ### layer 3, unbounded: the eager orders terminate with the expected result, for all arguments -/
+''')
+def eager_thm(name, order, res, kind, nz, unary):
+    O = {"hap": ".HAP", "app": ".APP"}[order]
+    if unary:
+        return (f"theorem C13_{name}_{order} (n : Nat) :\n    ∃ fuel c, reduce {O} 0 fuel (app Gen.Church.{name} (intoChurch n)) = some ({res}, c) := by\n"
+                f"  have h := (church_{name}_{order} n).reduce\n  first | exact h | simpa using h\n")
+    if nz:
+        # the eager theorems are stated for divisor n + 1
+        return (f"theorem C13_{name}_{order} (m n : Nat) (hn : n ≠ 0) :\n    ∃ fuel c, reduce {O} 0 fuel (app2 Gen.Church.{name} (intoChurch m) (intoChurch n)) = some ({res}, c) := by\n"
+                f"  obtain ⟨k, rfl⟩ : ∃ k, n = k + 1 := ⟨n - 1, by omega⟩\n  have h := (church_{name}_{order} m k).reduce\n  first | exact h | simpa using h\n")
+    return (f"theorem C13_{name}_{order} (m n : Nat) :\n    ∃ fuel c, reduce {O} 0 fuel (app2 Gen.Church.{name} (intoChurch m) (intoChurch n)) = some ({res}, c) := by\n"
+            f"  have h := (church_{name}_{order} m n).reduce\n  first | exact h | simpa using h\n")
+for name, res, kind in UN:
+    out.append(eager_thm(name, "hap", res, kind, False, True))
+    out.append(eager_thm(name, "app", res, kind, False, True))
+for name, res, kind, nz in BIN:
+    out.append(eager_thm(name, "hap", res, kind, nz, False))
+    if name not in Z_BASED:
+        out.append(eager_thm(name, "app", res, kind, nz, False))
+out.append('''/-- the four Z-based operations do not terminate under APP, for ANY argument terms and any fuel: the operator
+`Z F` is normalised under its binders and unfolds forever (which is why the property and the documentation
+exclude them under APP) -/
+theorem C13_z_based_diverge_under_app (a b : Term) (fuel : Nat) :
+    reduce .APP 0 fuel (app2 Gen.Church.quot a b) = none ∧ reduce .APP 0 fuel (app2 Gen.Church.rem a b) = none ∧
+    reduce .APP 0 fuel (app2 Gen.Church.div a b) = none ∧ reduce .APP 0 fuel (app2 Gen.Church.shr a b) = none :=
+  ⟨church_quot_app_diverges_all a b fuel, church_rem_app_diverges_all a b fuel,
+   church_div_app_diverges_all a b fuel, church_shr_app_diverges_all a b fuel⟩
+
+/-- non-vacuity: HAP on 7 / 2 -/
+example : ∃ fuel c, reduce .HAP 0 fuel (app2 Gen.Church.div (intoChurch 7) (intoChurch 2))
+    = some (tuple2 (intoChurch 3) (intoChurch 1), c) := C13_div_hap 7 2 (by decide)
+
+/-! ### cross-check grid (BOUNDED; carries no claim any more): kernel evaluation of the model reducer.
 `Grid.runsTo o fuel t n = true` implies `∃ c, reduce o 0 fuel t = some (n, c)` (`Grid.runsTo_spec`). -/
 
 def FUEL : Nat := 100000
 def eager (zBased : Bool) : List Order := if zBased then [.HAP] else [.HAP, .APP]
 ''')
-G1, G2 = 6, 4
+G1, G2 = 3, 2
 for name, res, kind in UN:
-    g = 4 if name == "fac" else G1
+    g = 3
     out.append(f"set_option maxRecDepth 100000 in\ntheorem C13_grid_{name} : (List.range {g+1}).all (fun n => (eager false).all (fun o =>\n"
                f"    Grid.runsTo o FUEL (app Gen.Church.{name} (intoChurch n)) ({res}))) = true := by decide +kernel\n")
 for name, res, kind, nz in BIN:
-    g = 3 if name in ("pow", "shl", "shr") else G2
+    g = 2
     guard = "n == 0 || " if nz else ""
     zb = "true" if name in Z_BASED else "false"
     out.append(f"set_option maxRecDepth 100000 in\ntheorem C13_grid_{name} : (Grid.range2 {g} {g}).all (fun (m, n) => {guard}(eager {zb}).all (fun o =>\n"
